@@ -226,6 +226,19 @@ def build_reps(ir, onnx, serde, code, shape, pats, ref_bytes, tmpdir, case, clea
     base = ir.Tensor(exp.copy(), dtype=dtype, name="t")
     yield "lazy_nocache", ir.LazyTensor(lambda: base, dtype, ir.Shape(shape), cache=False, name="t"), {}
     yield "lazy_cache", ir.LazyTensor(lambda: ir.Tensor(exp.copy(), dtype=dtype), dtype, ir.Shape(shape), cache=True, name="t"), {}
+    if any(ref_bytes):
+        # a lazy tensor whose cache is switched off after it was used: from then on the function is called on every access
+        # again (documented), and by then it returns the data of this case (a tensor of zeros before)
+        calls = []
+
+        def later():
+            calls.append(1)
+            return ir.Tensor(np.zeros_like(exp), dtype=dtype) if len(calls) == 1 else ir.Tensor(exp.copy(), dtype=dtype)
+
+        lz = ir.LazyTensor(later, dtype, ir.Shape(shape), cache=True, name="t")
+        lz.numpy()
+        lz.cache = False
+        yield "lazy_cache_switched_off", lz, {}
     if b in (2, 4):
         pk = ir.PackedTensor(np.frombuffer(ref_bytes, dtype=np.uint8).copy(), dtype, shape=shape)
         yield "lazy_packed", ir.LazyTensor(lambda: pk, dtype, ir.Shape(shape), name="t"), {}
@@ -250,8 +263,11 @@ def build_reps(ir, onnx, serde, code, shape, pats, ref_bytes, tmpdir, case, clea
             flat = tt.raw.reshape(-1)
             if size > 0:
                 # a contiguous view into a larger storage (one row of a stacked weight, a slice of a fused buffer)
-                bigger = torch.cat([flat, flat, flat])
+                pad = flat.clone()
+                pad.view(torch.uint8).bitwise_not_()  # the neighbours in the storage hold other bytes than the view
+                bigger = torch.cat([pad, flat, pad])
                 view = bigger[size: 2 * size].reshape(shape)
+                assert view.storage_offset() == size
                 yield "torch_view_with_storage_offset", _TORCH[1].TorchTensor(view, name="t"), {"layout": True}
             if len(shape) >= 2 and size > 1:
                 nc = tt.raw.transpose(0, 1).contiguous().transpose(0, 1)  # equal content, not contiguous
